@@ -38,6 +38,8 @@ class Modes(Stage):
                 c = gen_chatter(d)
                 if d.chance(0.3):
                     c += d.choice([' ünïcödé', ' 日本語', ' €', ' →'])
+                if d.chance(0.15):
+                    c = 'progress 10%\rprogress 50%\r' + c      # programs redraw a line with a bare carriage return
                 lines.append(c[:300])
             lines.append(wire.render(m, dialect))
         while d.chance(0.3):
@@ -103,6 +105,7 @@ class Modes(Stage):
         if case['exit']: res.label('non-zero-exit')
         if not case['text'].endswith('\n'): res.label('no-final-newline')
         if any(ord(c) > 127 for c in case['text']): res.label('multi-byte')
+        if '\r' in case['text']: res.label('carriage-return-in-chatter')
         if any(a.startswith('-') for a in case['argv']): res.label('option-lookalike-argv')
         res.sample = dict(lines=case['text'].split('\n')[:6], chunks=[len(c) for c in case['chunks']], exit=case['exit'], argv=case['argv'])
         return res
